@@ -14,10 +14,10 @@ CHECKS = {
             'Trusted: nightly std MIR standing in for the pinned toolchain\'s std; trusted-std-leaf table (rules/c01_trust.py); one manual invariant (M-seq) for two unreachable!() in tokens_to_operator_tree; user functions do not panic. Not decided: stack exhaustion (recursion depth is a run-time quantity), memory exhaustion.',
             'whole-program panic-site enumeration over MIR (monomorphic reachability into std) + dominance/provenance guard rules'),
     'C02': ('other',
-            'Clause level: the tables the tree builder consults (precedence order for all 351 pairs of documented operators, associativity, arity, prefix/binary split, char->token->operator symbol chain, operand-boundary sets) are extracted from MIR for every enum variant and compared with the documented table. The insertion/rotation algorithm itself is not decided.',
+            'Clause level: the tables the tree builder consults (precedence order for all 351 pairs of documented operators, associativity, arity, prefix/binary split, char->token->operator symbol chain, operand-boundary sets) are extracted from MIR for every enum variant and compared with the documented table; in addition the decision procedure of insert_back_prioritized (error / descend into the last child / rotate / push) is reconstructed from all its MIR paths and compared with the reference decision of precedence climbing for every combination of operator-kind classes (T7). Every single insertion step is thereby decided for all operator kinds; the induction over the token sequence (that the steps compose to the reference tree) is not mechanised.',
             'DESIGN.md §4 C02',
-            'Trusted: nightly rustc MIR of the same source; documentation tables as oracle. Not decided: insert_back_prioritized descend/rotate logic.',
-            'abstract interpretation of MIR per enum variant (table extraction) vs documentation oracle'),
+            'Trusted: nightly rustc MIR of the same source; documentation tables as oracle; the reference decision function written from the documented rules (rules/c02.py t7). Not decided: the inductive argument that correct single steps yield the reference tree for every token sequence.',
+            'abstract interpretation of MIR per enum variant (table extraction) vs documentation oracle; decision-procedure agreement over all operator-kind classes'),
     'C12': ('other',
             'Wrapper matrix over all 48 typed/untyped entry points (24 string-level, 24 tree-level) plus the 3 string pipelines: each wrapper is abstractly interpreted over its MIR once per case of the base evaluator result (6 value variants + error) and must return exactly the projection its name promises, for every input. Context-free forms must forward to the same-typed _with_context_mut form with a fresh HashMapContext.',
             'DESIGN.md §4 C12',
